@@ -88,8 +88,10 @@ def _values(col, ctx, shard):
         if (n1 + n2 + bs) % 5 == 0: variants.append(('uint8', 'float64', [0, 2, 2, 3], ['drop_first', 'cube_minus']))
         for tdt, prec, frame, chain in variants:
             rng = rng_for(seed, 'c09v', n1, n2)
-            A = rng.randint(0, 9, (n1 + 3, 4)); B = rng.randint(0, 9, (n2 + 2, 4))
-            if np.dtype(tdt).kind == 'i': A = A - 4; B = B - 3
+            # values whose squares do not fit the integer storage type (a square computed before promotion would wrap)
+            hi = 200 if tdt == 'uint8' else 300
+            A = rng.randint(0, hi, (n1 + 3, 4)); B = rng.randint(0, hi, (n2 + 2, 4))
+            if np.dtype(tdt).kind == 'i': A = A - hi // 2; B = B - hi // 3
             A = A.astype(tdt); B = B.astype(tdt)
             case = {'n1': n1, 'n2': n2, 'batch_size': bs, 'tdtype': tdt, 'precision': prec, 'frame': repr(frame), 'chain': chain}
             label = 'n1=%d n2=%d bs=%d %s/%s frame=%r chain=%s' % (n1, n2, bs, tdt, prec, frame, chain)
